@@ -3,6 +3,7 @@ package lp
 import (
 	"bytes"
 	"encoding/json"
+	"fmt"
 	"math"
 	"strings"
 
@@ -23,6 +24,7 @@ type Cfg struct {
 	UniqueKeys bool // keys are unique tokens (layout checks)
 	C08        bool // restrict to what C08's statement names
 	NoLong     bool // never generate the long (>500 B) payload classes
+	NoScale    bool // never blow a dimension up (hundreds of fields, hooks, derivation steps, events; deep nesting)
 	PlainOnly  bool // only allocation-free types (C07) – unused here
 	NoCaller   bool
 	NoSettings bool // default settings only
@@ -90,7 +92,7 @@ type G struct {
 
 func NewG(t *rapid.T, cfg Cfg) *G { return &G{t: t, cfg: cfg} }
 
-var longLens = []int{254, 255, 256, 257, 499, 500, 501, 1023, 1025, 65535, 65536, 65537}
+var longLens = []int{254, 255, 256, 257, 499, 500, 501, 1023, 1025, 4095, 4096, 4097, 8193, 12290, 20000, 33000, 65535, 65536, 65537}
 
 // Bytes draws an arbitrary byte string from the class alphabet.
 func (g *G) Bytes(label string) []byte {
@@ -113,9 +115,26 @@ func (g *G) Bytes(label string) []byte {
 		return rapid.SliceOfN(rapid.Byte(), 0, 12).Draw(t, label+".raw")
 	case c == 17 && !g.cfg.NoLong:
 		n := rapid.SampledFrom(longLens).Draw(t, label+".long")
+		if rapid.IntRange(0, 2).Draw(t, label+".longmb") == 0 {
+			// long non-ASCII text: a run of 2-, 3- or 4-byte runes at every phase, so that some rune lies across
+			// whatever block boundary an implementation may have; optionally a byte that needs escaping up front
+			var b []byte
+			if rapid.Bool().Draw(t, label+".longq") {
+				b = append(b, '"')
+			}
+			b = append(b, bytes.Repeat([]byte("a"), rapid.IntRange(0, 3).Draw(t, label+".phase"))...)
+			r := rapid.SampledFrom([]string{"é", "€", "😀", "é€"}).Draw(t, label+".rune")
+			for len(b)+len(r) <= n {
+				b = append(b, r...)
+			}
+			return b
+		}
 		b := bytes.Repeat([]byte("y"), n)
 		if rapid.Bool().Draw(t, label+".longesc") {
 			copy(b[n/2:], rapid.SampledFrom(Sigma).Draw(t, label+".ls"))
+		}
+		if rapid.IntRange(0, 3).Draw(t, label+".longtail") == 0 && n > 10 {
+			copy(b[n-6:], "\"\\\n<&") // bytes that need escaping only at the far end, after kilobytes of clean text
 		}
 		return b
 	default:
@@ -1110,6 +1129,74 @@ func (g *G) Event(label string) EventSpec {
 
 // Program draws a complete program. With cfg.Tree the derivation is a tree, events pick
 // any node, and steps, events and open/finish halves of events are interleaved.
+// scale blows one dimension of the program up to what long-running services reach: sizes and counts
+// beyond any fixed-size fast path, small counter or first growth step.
+func (g *G) scale(p *Program) {
+	t := g.t
+	dims := []string{"wideevent", "widectx", "deep", "manyhooks", "longchain"}
+	if !g.cfg.NoLong {
+		dims = append(dims, "longkey")
+	}
+	if !g.cfg.Tree {
+		dims = append(dims, "manyevents")
+	}
+	if g.cfg.NoHooks {
+		dims = dims[:3]
+	}
+	ei := rapid.IntRange(0, len(p.Events)-1).Draw(t, "scale.ev")
+	switch d := rapid.SampledFrom(dims).Draw(t, "scale.dim"); d {
+	case "wideevent", "widectx":
+		n := rapid.SampledFrom([]int{17, 33, 65, 129, 257, 300}).Draw(t, "scale.n")
+		var ops []Op
+		for i := 0; i < n; i++ {
+			ops = append(ops, Op{K: []byte(fmt.Sprintf("w%03d", i)), V: Val{T: "int", I: int64(i)}})
+		}
+		if d == "widectx" {
+			for i := range p.Steps {
+				if p.Steps[i].Kind == "with" {
+					p.Steps[i].Ops = append(p.Steps[i].Ops, ops...)
+					return
+				}
+			}
+		}
+		p.Events[ei].Ops = append(p.Events[ei].Ops, ops...)
+	case "deep":
+		depth := rapid.SampledFrom([]int{9, 17, 33, 65}).Draw(t, "scale.depth")
+		v := Val{T: "dict", Ops: []Op{{K: []byte("leaf"), V: Val{T: "bool", B: true}}}}
+		for i := 0; i < depth; i++ {
+			v = Val{T: "dict", Ops: []Op{{K: []byte("i"), V: Val{T: "int", I: int64(i)}}, {K: []byte("d"), V: v}}}
+		}
+		p.Events[ei].Ops = append(p.Events[ei].Ops, Op{K: []byte("deep"), V: v})
+	case "longkey":
+		n := rapid.SampledFrom([]int{300, 5000, 70000}).Draw(t, "scale.keylen")
+		p.Events[ei].Ops = append(p.Events[ei].Ops, Op{K: bytes.Repeat([]byte("k"), n), V: Val{T: "int", I: 1}})
+	case "manyhooks":
+		n := rapid.SampledFrom([]int{17, 65, 129, 257, 300}).Draw(t, "scale.nhooks")
+		for i := range p.Steps {
+			if p.Steps[i].Kind == "hook" {
+				for k := 0; k < n; k++ {
+					h := HookSpec{ID: 1000 + k, Kind: "noop"}
+					if k%16 == 0 {
+						h = HookSpec{ID: 1000 + k, Kind: "add", Ops: []Op{{K: []byte(fmt.Sprintf("hk%03d", k)), V: Val{T: "int", I: int64(k)}}}}
+					}
+					p.Steps[i].Hooks = append(p.Steps[i].Hooks, h)
+				}
+				return
+			}
+		}
+	case "longchain":
+		n := rapid.SampledFrom([]int{40, 130, 260}).Draw(t, "scale.chain")
+		for i := 0; i < n; i++ {
+			p.Steps = append(p.Steps, Step{Kind: "with", Ops: []Op{{K: []byte(fmt.Sprintf("c%03d", i)), V: Val{T: "int", I: int64(i)}}}})
+		}
+	case "manyevents":
+		n := rapid.SampledFrom([]int{70, 300}).Draw(t, "scale.nevents")
+		for i := 0; i < n; i++ {
+			p.Events = append(p.Events, p.Events[ei])
+		}
+	}
+}
+
 func (g *G) Program(maxSteps, maxEvents int) *Program {
 	t := g.t
 	p := &Program{}
@@ -1118,6 +1205,10 @@ func (g *G) Program(maxSteps, maxEvents int) *Program {
 	n := rapid.IntRange(1, maxEvents).Draw(t, "nevents")
 	for i := 0; i < n; i++ {
 		p.Events = append(p.Events, g.Event("ev"))
+	}
+	if !g.cfg.NoScale && rapid.IntRange(0, 24).Draw(t, "scale") == 0 {
+		g.scale(p)
+		n = len(p.Events)
 	}
 	if !g.cfg.Tree {
 		return p
